@@ -168,7 +168,7 @@ def main():
         "samples": samples[:8] or [{"note": "none"}],
         "exhaustive": not viol_ and not inc,
     }
-    assumptions = ["universe: 3 nodes, 2 links, 2 origins, 2 destinations; pre-states over {A,B} with C fresh",
+    assumptions = ["universe: 3 nodes, 2 links, 2 origins, 2 destinations; pre-states over {A,B} with C fresh; second configuration (masks all/none quick): node C is also called 'A' and the network is an instance of a user subclass of Network",
                    "every symbolic variable is control-determining: solver-driven exhaustive exploration of the pre-state space; the comparison itself is concrete",
                    "inductive scheme: any reachable state satisfies the invariant, so one step from an arbitrary consistent cached state covers histories of any length (within the universe)"]
     harness.finish(args, "model_checking", cov, assumptions, viol_, inc, t0)
